@@ -675,7 +675,12 @@ def history_groups():
         out["instant-from-aware"].append(("same-instant-other-offset/fold/subclass", g))
     for d in (dt.datetime(2000, 2, 29, 1, 30, 0, 5), dt.datetime(1, 1, 1), dt.datetime(9999, 12, 31, 23, 59, 59, 999_999)):
         sub = _DT(d.year, d.month, d.day, d.hour, d.minute, d.second, d.microsecond)
-        g = [(d,), (d.replace(fold=1),), (sub,), (d, CalendarSystem.iso), (d, CalendarSystem.julian), (d.replace(fold=1), CalendarSystem.gregorian), (sub, CalendarSystem.coptic)]
+        g = [(d,), (d.replace(fold=1),), (sub,), (d, CalendarSystem.iso), (d.replace(fold=1), CalendarSystem.gregorian)]
+        n = d.toordinal() - ORD_EPOCH
+        for x, cal in ((d, CalendarSystem.julian), (sub, CalendarSystem.coptic), (d, CalendarSystem.hebrew_civil)):
+            lo, hi, _ = cal_range(cal.id)
+            if lo <= n <= hi:      # a calendar argument is only meaningful when the calendar contains the day
+                g.append((x, cal))
         out["from_naive_datetime"].append(("fold/subclass/calendar-argument", g))
     for d in (dt.date(2000, 2, 29), dt.date(1, 1, 1), dt.date(9999, 12, 31)):
         out["from_date"].append(("subclass/distinct-object", [(d,), (_D(d.year, d.month, d.day),), (dt.date.fromordinal(d.toordinal()),)]))
